@@ -852,7 +852,7 @@ fn main() {{}}
     obls = ctx_obls(names, ["C01"]) + [
         Obl("C01.handler.ret", ["C01", "C09", "C13", "C08", "C15"], fn="ret", desc="ret: returns the VALUE of the single operand, copied out of any element / field / entry pointer (or no value); more than one operand is an error"),
         Obl("C01.handler.store", ["C01", "C07", "C08"], fn="store", desc="store: the operand's value (moved out of pointers) is registered under the name; stack emptied"),
-        Obl("C01.handler.store_fast", ["C01", "C15"], fn="store_fast", desc="store_fast: binds the register in the innermost frame to the operand's value"),
+        Obl("C01.handler.store_fast", ["C01", "C15", "C08"], fn="store_fast", desc="store_fast: binds the register in the innermost frame to the operand's value"),
         Obl("C01.handler.load_fast", ["C01", "C15"], fn="load_fast", desc="load_fast: pushes the content of the register as bound in the executing function's frames"),
     ]
     return gen, obls, log
